@@ -46,16 +46,18 @@ def run(cmd, cwd=None, timeout=3600, extra_env=None, quiet=True):
     return p.returncode, p.stdout
 
 
-def cargo_build(package, target_dir="target", release=False, features=None, extra_env=None):
+def cargo_build(package, target_dir="target", release=False, features=None, extra_env=None, profile=None):
     cmd = ["cargo", "build", "-q", "-p", package, "--target-dir", os.path.join(ENGINE, target_dir)]
-    if release:
+    if profile:
+        cmd += ["--profile", profile]
+    elif release:
         cmd.append("--release")
     if features:
         cmd += ["--features", ",".join(features)]
     rc, out = run(cmd, cwd=ENGINE, timeout=3000, extra_env=extra_env)
     if rc != 0:
         raise Inconclusive("could not build %s:\n%s" % (package, out[-4000:]))
-    return os.path.join(ENGINE, target_dir, "release" if release else "debug", package)
+    return os.path.join(ENGINE, target_dir, profile or ("release" if release else "debug"), package)
 
 
 def run_engine(cmd, result_path, what, timeout=7200, extra_env=None):
@@ -140,16 +142,17 @@ def e1_parts(prop_arg, cases):
     return [e1_part(prop_arg, cases), e1_part(prop_arg, cases, release=True)]
 
 
-def e4_part(prop_arg, cases, max_len, release):
+def e4_part(prop_arg, cases, max_len, release, abort=False):
+    """abort=True: optimised build with panic = "abort" (only for runs in which no converter fails)."""
     def f(tier):
-        exe = cargo_build("e4_vecconv", release=release)
+        exe = cargo_build("e4_vecconv", release=release, profile="abort" if abort else None)
         os.makedirs(WORK, exist_ok=True)
-        out = os.path.join(WORK, "e4_%s_%s.json" % (prop_arg, os.getpid()))
+        out = os.path.join(WORK, "e4_%s_%s%s.json" % (prop_arg, os.getpid(), "_abort" if abort else ""))
         r = run_engine([exe, "run", prop_arg, str(cases[tier]), str(max_len[tier]), out], out, "e4_vecconv run " + prop_arg,
-                       extra_env={"VERIF_SEED": str(seed() ^ (0x52454C if release else 0))})
+                       extra_env={"VERIF_SEED": str(seed() ^ (0xAB0 if abort else 0x52454C if release else 0))})
         r.setdefault("property", prop_arg)
-        r["part"] = "e4:%s:%s" % (prop_arg, "release" if release else "debug")
-        r["replay_engine"] = "e4-release" if release else "e4"
+        r["part"] = "e4:%s:%s" % (prop_arg, "release, panic=abort" if abort else "release" if release else "debug")
+        r["replay_engine"] = "e4-abort" if abort else "e4-release" if release else "e4"
         return r
     return f
 
@@ -495,8 +498,9 @@ PROPERTIES = {
     "C07": dict(level="exploration", parts=e3_parts("C07", "AC", dict(quick=150000, thorough=2500000)) + [e3_miri_part("C07", dict(quick=30, thorough=400))] + [fuzz_part("gendrive", "C07", dict(quick=0, thorough=300000), 160)]),
     "C15": dict(level="exploration", parts=e3_parts("C15", "AB", dict(quick=150000, thorough=2500000))),
     "C16": dict(level="exploration", parts=e3_parts("C16", "AB", dict(quick=150000, thorough=2500000)) + [fuzz_part("gendrive", "C16", dict(quick=0, thorough=150000), 160)]),
-    "C08": dict(level="exploration", parts=e4_parts("C08", dict(quick=150000, thorough=2000000), dict(quick=8, thorough=12)) + [e5_part("C08", dict(quick=120, thorough=1500))] + [fuzz_part("vecconv", "C08", dict(quick=0, thorough=600000), 128)]),
-    "C09": dict(level="fault_enumeration", parts=e4_parts("C09", dict(quick=150000, thorough=2000000), dict(quick=8, thorough=11)) + [fuzz_part("vecconv", "C09", dict(quick=0, thorough=600000), 128)]),
+    "C08": dict(level="exploration", parts=e4_parts("C08", dict(quick=150000, thorough=2000000), dict(quick=8, thorough=12))
+                + [e4_part("C08", dict(quick=100000, thorough=1000000), dict(quick=7, thorough=10), True, abort=True)] + [e5_part("C08", dict(quick=120, thorough=1500))] + [fuzz_part("vecconv", "C08", dict(quick=0, thorough=600000), 128)]),
+    "C09": dict(level="fault_enumeration", parts=e4_parts("C09", dict(quick=150000, thorough=2000000), dict(quick=8, thorough=11)) + [e5_part("C09", dict(quick=100, thorough=1000))] + [fuzz_part("vecconv", "C09", dict(quick=0, thorough=600000), 128)]),
     "C10": dict(level="exploration", parts=e4_parts("C10", dict(quick=100000, thorough=800000), dict(quick=12, thorough=40)) + [fuzz_part("vecconv", "C10", dict(quick=0, thorough=600000), 128)]),
     "C12": dict(level="exploration", parts=e1_parts("C12", dict(quick=400000, thorough=4000000)) + [fuzz_part("layout", "C12", dict(quick=0, thorough=250000), 256)]),
     "C11": dict(level="exploration", parts=[e5_part("C11", dict(quick=1500, thorough=10000)), e5_part("C11", dict(quick=500, thorough=3000), release=True)]),
@@ -551,8 +555,8 @@ def replay(prop, path):
             if rc == 1:
                 print("VIOLATION property=%s replay=%s" % (prop, path))
             return rc
-        if engine in ("e4", "e4-release"):
-            exe = cargo_build("e4_vecconv", release=(engine == "e4-release"))
+        if engine in ("e4", "e4-release", "e4-abort"):
+            exe = cargo_build("e4_vecconv", release=(engine == "e4-release"), profile="abort" if engine == "e4-abort" else None)
             rc, out = run([exe, "replay", data.get("replay_property", prop), path], timeout=600)
             print(out, end="")
             if rc == 1:
